@@ -554,6 +554,10 @@ impl<const BITS: usize, const LIMBS: usize> Shl<Self> for Uint<BITS, LIMBS> {
         if BITS == 0 {
             return self;
         }
+        // Shift amounts of 2**64 or more shift out every bit.
+        if rhs.as_limbs()[1..].iter().any(|&limb| limb != 0) {
+            return Self::ZERO;
+        }
         // Rationale: if BITS is larger than 2**64 - 1, it means we're running
         // on a 128-bit platform with 2.3 exabytes of memory. In this case,
         // the code produces incorrect output.
@@ -579,6 +583,10 @@ impl<const BITS: usize, const LIMBS: usize> Shr<Self> for Uint<BITS, LIMBS> {
         // This check shortcuts, and prevents panics on the `[0]` later
         if BITS == 0 {
             return self;
+        }
+        // Shift amounts of 2**64 or more shift out every bit.
+        if rhs.as_limbs()[1..].iter().any(|&limb| limb != 0) {
+            return Self::ZERO;
         }
         // Rationale: if BITS is larger than 2**64 - 1, it means we're running
         // on a 128-bit platform with 2.3 exabytes of memory. In this case,
